@@ -64,6 +64,9 @@ func main() {
 	proto := flag.String("proto", "http1", "http1 | bolt | boltoneway (downstream and upstream protocol of the listener under test)")
 	flag.Parse()
 	isBolt := *proto != "http1"
+	if isBolt {
+		e2e.RegisterBolt()
+	}
 	oneway := *proto == "boltoneway"
 	if !vh.HooksCompiled() {
 		vh.Must(fmt.Errorf("built without -tags verif"), "hooks")
